@@ -1,10 +1,13 @@
 #!/bin/bash
-# Runs every stored seeded change against the check of its own property (quick tier) and
-# prints one line each; /repo is reverted after every change.
+# Runs every stored seeded change against the check of its own property (quick tier), three
+# at a time, and prints one line each. Neither /repo nor /verif's evidence is touched
+# (tools_run_seeded.sh works on scratch copies).
 # usage: tools_regress_seeded.sh [suffix...]   (default: all)
 cd /verif
+list=""
 for d in seeded/*/; do
   d=${d%/}; n=$(basename $d); id=${n%%-*}
   if [ $# -gt 0 ]; then ok=0; for s in "$@"; do [ "${n##*-}" = "$s" ] && ok=1; done; [ $ok = 1 ] || continue; fi
-  ./tools_run_seeded.sh $d $id 2>&1 | tail -1 | cut -c1-260
+  list="$list $d:$id"
 done
+echo $list | tr ' ' '\n' | xargs -P 3 -I{} sh -c 'x={}; ./tools_run_seeded.sh ${x%%:*} ${x##*:} 2>&1 | tail -1 | cut -c1-260'
